@@ -48,16 +48,20 @@ EOp(e) ==
   /\ (e.res # KernelRes(e.op, st) => TLCSet(N + t, 1))
   /\ UNCHANGED <<size0, sha0, seals0>>
 
-(* a program ran from the memfd: fold its attempts through the model with exec = TRUE *)
+(* a program ran from the memfd: fold its attempts through the model with exec = TRUE.    *)
+(* If it did not complete normally only the observed file is judged (it must be frozen)   *)
+(* and the case is flagged as a set-up problem (register 2N+t).                           *)
+ObsFrozen(obs) == obs.size = size0 /\ obs.sha = sha0 /\ ToSet(obs.seals) = seals0
 EExec(e) ==
-  /\ e.status = "Normal" /\ Len(e.ops) > 0
   /\ \A i \in DOMAIN e.ops : e.ops[i].op \in Ops
-  /\ LET step(S, o) == UNION { Effect(o.op, o.res, s) : s \in S }
-         final == FoldLeft(step, { [st EXCEPT !.exec = TRUE] }, e.ops)
-         drift == FoldLeft(LAMBDA acc, o : acc \/ o.res # KernelRes(o.op, [st EXCEPT !.exec = TRUE]), FALSE, e.ops)
-     IN /\ \E n \in { [s EXCEPT !.exec = FALSE, !.pos = 0] : s \in final } :
-             Matches(e.obs, n) /\ Frozen(n, size0, seals0) /\ st' = n
-        /\ (drift => TLCSet(N + t, 1))
+  /\ IF e.status # "Normal" \/ Len(e.ops) = 0
+       THEN /\ ObsFrozen(e.obs) /\ TLCSet(2 * N + t, 1) /\ st' = [st EXCEPT !.pos = e.obs.pos]
+       ELSE LET step(S, o) == UNION { Effect(o.op, o.res, s) : s \in S }
+                final == FoldLeft(step, { [st EXCEPT !.exec = TRUE] }, e.ops)
+                drift == FoldLeft(LAMBDA acc, o : acc \/ o.res # KernelRes(o.op, [st EXCEPT !.exec = TRUE]), FALSE, e.ops)
+            IN /\ \E n \in { [s EXCEPT !.exec = FALSE, !.pos = 0] : s \in final } :
+                    Matches(e.obs, n) /\ Frozen(n, size0, seals0) /\ st' = n
+               /\ (drift => TLCSet(N + t, 1))
   /\ UNCHANGED <<size0, sha0, seals0>>
 
 TStep ==
@@ -71,9 +75,10 @@ TStep ==
 TSpec == TInit /\ [][TStep]_tvars
 
 Mark == TLCSet(t, IF TLCGet(t) < l - 1 THEN l - 1 ELSE TLCGet(t))
-ASSUME \A i \in 1..(2 * N) : TLCSet(i, 0)
+ASSUME \A i \in 1..(3 * N) : TLCSet(i, 0)
 Report ==
   ndJsonSerialize("bad.ndjson",
         SetToSeq({ [t |-> i, matched |-> TLCGet(i), j |-> "reject"] : i \in { j \in 1..N : TLCGet(j) < Len(Traces[j].ev) } })
-     \o SetToSeq({ [t |-> i, matched |-> TLCGet(i), j |-> "drift"] : i \in { j \in 1..N : TLCGet(N + j) = 1 } }))
+     \o SetToSeq({ [t |-> i, matched |-> TLCGet(i), j |-> "drift"] : i \in { j \in 1..N : TLCGet(N + j) = 1 } })
+     \o SetToSeq({ [t |-> i, matched |-> TLCGet(i), j |-> "setup"] : i \in { j \in 1..N : TLCGet(2 * N + j) = 1 } }))
 =============================================================================
